@@ -6,7 +6,10 @@ import vlib, bb, scen
 import upstream_run as U
 
 PID = "C19"
-IDLE_S = 30          # the QUIC connector's idle period (common/quic.rs create_quic_client)
+# the QUIC connector's idle period (common/quic.rs create_quic_client) is 30 s, its keep-alive 10 s; the idle timer is re-armed
+# by the first packet sent after the last one received, so a connection that was idle when its peer vanished is noticed
+# at the latest keep-alive + idle = 40 s after the peer was last heard
+IDLE_S = 40
 
 
 def scenario(v, wd, name, kinds, thorough, out):
@@ -128,7 +131,8 @@ def scenario(v, wd, name, kinds, thorough, out):
                 for t in ts:
                     tcheck(t, k, 0.3)
             # ---- outage 3 (TCP kinds): killed, an impostor answers on the port, restart ----
-            if not quic and (thorough or k in ("http", "socks")):
+            # (not for `direct`: there the impostor IS the destination, an accepted connection is a tunnel)
+            if not quic and k != "direct" and (thorough or k in ("http", "socks")):
                 w.down(k, "kill")
                 for t in ts:
                     tcheck(t, k, 3.0)
@@ -242,7 +246,7 @@ def run(tier, t0):
                 "sequence is validated by TraceUpstream (outcome and get_connection operation allowed by the model in that state, Recovery as a "
                 "guard on every probe); background probes through an untouched upstream must all succeed",
         "background": bgstats, "self_test_original_switches_violate": True, "exhaustive": False, "checker_cmd": mc.cmd,
-    }, ["QUIC idle period 30 s + 4 s slack as the recovery bound; dial connectors must serve 150 ms after the restart",
+    }, ["QUIC keep-alive 10 s + idle period 30 s + 4 s slack as the recovery bound; dial connectors must serve 150 ms after the restart",
         "packet loss / partitions are not emulated: 'silently dropped' is SIGSTOP and kill -9 of a QUIC peer"])
     return v.finish(ev, t0)
 
